@@ -24,6 +24,7 @@ pub fn run(h: &H) {
         let mut rng = h.rng(idx);
         let kind = idx % 5;
         h.guard(idx, &format!("ellipsoid geometry kind {kind}"), || match kind {
+            0 if (idx / 5) % 2 == 0 => cart_operator(h, idx, &mut rng),
             0 => geocart(h, idx, &mut rng),
             1 | 2 => geodesics(h, idx, &mut rng),
             3 => latitudes(h, idx, &mut rng),
@@ -141,7 +142,7 @@ fn geocart(h: &H, idx: u64, rng: &mut Rng) {
     }
     for _ in 0..30 {
         let lon = rng.range(-PI, PI);
-        let lat = catalog::edge_biased(rng) * FRAC_PI_2;
+        let lat = catalog::edge_biased_exact(rng) * FRAC_PI_2;
         let hgt = rng.range(-1.0e4, 1.0e5) * sz;
         let p = Coor4D([lon, lat, hgt, 2000.0]);
         let c = e.cartesian(&p);
@@ -168,6 +169,66 @@ fn geocart(h: &H, idx: u64, rng: &mut Rng) {
         h.max("|X²/a²+Y²/a²+Z²/b² - 1| at h=0", (q - 1.0).abs(), || format!("{name} at {lon} {lat}"));
         if !((q - 1.0).abs() <= 1.0e-12) {
             v(h, idx, "surface-point-off-the-ellipsoid", J::obj().set("ellipsoid", &name).set("lon_lat", J::coords(&[lon, lat])).set("equation_value", q));
+            return;
+        }
+    }
+}
+
+/// The `cart` operator (Fukushima's inverse): forward against the defining formula, inverse of
+/// forward to 1 micrometre at heights from -10 km to 10 000 km, poles, equator and the Z axis included
+fn cart_operator(h: &H, idx: u64, rng: &mut Rng) {
+    let (name, ell, _) = pick(rng, true);
+    let sz = catalog::size(&ell);
+    let mut ctx = Minimal::new();
+    let def = format!("cart ellps={name}");
+    let Ok(op) = ctx.op(&def) else {
+        v(h, idx, "cart-operator/instantiation", J::obj().set("definition", &def));
+        return;
+    };
+    // the ellipsoid the operator really uses (a,rf goes through a decimal text)
+    let used = Ell { a: ell.a, f: ell.f };
+    h.class("cart-operator");
+    h.distinct(mix(hash_str(&def), idx));
+    for _ in 0..30 {
+        let lon = if rng.chance(0.1) { *rng.pick(&[0.0, PI, -PI, FRAC_PI_2, -FRAC_PI_2]) } else { rng.range(-PI, PI) };
+        let lat = catalog::edge_biased_exact(rng) * FRAC_PI_2;
+        // beyond 100 km the statement is the millimetre class, on the built-in ellipsoids
+        let far = rng.chance(0.3) && !name.contains(',');
+        let hgt = if far { rng.range(1.0e5, 1.0e7) * sz } else { rng.range(-1.0e4, 1.0e5) * sz };
+        let p = [lon, lat, hgt, 2000.0];
+        let (c, n1) = apply1(&ctx, op, D::F, p);
+        let r = used.to_cart(lon, lat, hgt);
+        let d = ((c[0] - r[0]).powi(2) + (c[1] - r[1]).powi(2) + (c[2] - r[2]).powi(2)).sqrt();
+        h.eval(2);
+        if n1 != 1 || !(d <= 1.0e-8 * sz * (1.0 + hgt.abs() / (ell.a))) {
+            v(h, idx, "cart-operator/forward-differs-from-definition", J::obj().set("definition", &def).set("input", J::bits(&p)).set("library", J::coords(&c)).set("reference", J::coords(&r)).set("count", n1));
+            return;
+        }
+        let (g, n2) = apply1(&ctx, op, D::I, c);
+        let back = used.ground(lon, lat, g[0], g[1]) + (g[2] - hgt).abs();
+        let pole = lat.abs() == FRAC_PI_2;
+        h.class(if pole { "cart-operator/exact-pole" } else if lat == 0.0 { "cart-operator/exact-equator" } else if far { "cart-operator/far" } else { "cart-operator/near" });
+        h.max(if far { "cart inv(fwd(p)) - p, 100..10000 km (m)" } else { "cart inv(fwd(p)) - p, -10..100 km (m)" }, back / sz, || format!("{def} at {}", fmt4(&p)));
+        let tol = if far { 2.0e-3 * sz } else { 1.0e-6 * sz };
+        if n2 != 1 || !(back <= tol) || g[3].to_bits() != p[3].to_bits() {
+            v(
+                h,
+                idx,
+                &format!("cart-operator/inverse-does-not-undo-forward/{}", if pole { "pole" } else if far { "far" } else { "near" }),
+                J::obj().set("definition", &def).set("input", J::bits(&p)).set("cartesian", J::coords(&c)).set("back", J::bits(&g)).set("difference_m", back).set("count", n2),
+            );
+            return;
+        }
+    }
+    // points on the Z axis itself, both signs: latitude +-90, height |Z| - b
+    let b = ell.b();
+    for z in [b, -b, b + 1234.5 * sz, -(b + 1234.5 * sz), 0.5 * b, -0.5 * b] {
+        let (g, n) = apply1(&ctx, op, D::I, [0.0, 0.0, z, 1.0]);
+        h.eval(1);
+        h.class("cart-operator/z-axis");
+        let ok = n == 1 && (g[1] - FRAC_PI_2.copysign(z)).abs() < 1e-12 && (g[2] - (z.abs() - b)).abs() <= 1.0e-6 * sz;
+        if !ok {
+            v(h, idx, "cart-operator/z-axis", J::obj().set("definition", &def).set("Z", z).set("semiminor_axis", b).set("output", J::coords(&g)).set("count", n));
             return;
         }
     }
